@@ -2,7 +2,7 @@
    Statements only; proofs in Proofs/C16Proof.v.  Gen/Schema.v is regenerated
    from the Python sources on every run. *)
 From Coq Require Import List String Bool.
-From PV Require Import Model.JsonSchema Proofs.C16Proof Gen.Schema.
+From PV Require Import Model.JsonSchema Model.JsonConcrete Proofs.C16Proof Gen.Schema.
 Import ListNotations.
 Open Scope string_scope.
 
@@ -39,6 +39,18 @@ Proof.
   apply andb_true_iff in H. destruct H as [H _]. apply andb_true_iff in H. apply H.
 Qed.
 Print Assumptions C16_roundtrip.
+
+(* the hypothesis is met by the conversions the shapes stand for (Model/
+   JsonConcrete.v: JSON values, attribute values with enum members, object
+   references, timedeltas, datetimes with microseconds, nested objects; int(),
+   float(), x.ID, str(total_seconds()), strftime and their readers, ID lookup
+   in the project being read -- including the lossy ones and ill-typed
+   attribute values): for every class of the current source and every object,
+   writing what was read from what was written gives the same document *)
+Theorem C16_roundtrip_concrete : forall (env : string -> nat) c, In c all_classes -> forall o dflt : obj av,
+  export av jv out c (import av jv (inn env) c (export av jv out c o) dflt) = export av jv out c o.
+Proof. intros env c Hin o dflt. apply (C16_roundtrip av jv out (inn env) (law env) c Hin). Qed.
+Print Assumptions C16_roundtrip_concrete.
 
 (* (d) every constructor parameter of every saved class is part of the format *)
 Theorem C16_constructor_parameters_saved : forall c, In c all_classes ->
